@@ -5,8 +5,8 @@ CONSTANTS
   FAMS = {"alias"}
   TYPES = {"hash", "hset", "ivec", "list", "str"}
   DEPTH = 1
-  KINDS0 = {"G", "P", "L", "M", "B", "C", "EL", "EP", "EV", "EI", "EH", "ES", "EM", "S", "PR", "K", "WL", "WM"}
-  KINDS1 = {"G", "L", "M", "B", "C", "EL", "EP", "EV", "EI", "EH", "ES", "EM", "S", "PR", "K", "WL", "WM"}
+  KINDS0 = {"G", "P", "L", "M", "B", "C", "EL", "EP", "EV", "EI", "EH", "EK", "ES", "EM", "S", "PR", "RA", "K", "WL", "WM", "WE"}
+  KINDS1 = {"G", "L", "M", "B", "C", "EL", "EP", "EV", "EI", "EH", "EK", "ES", "EM", "S", "PR", "RA", "K", "WL", "WM", "WE"}
   KINDSR = {}
   KEEP1 = 1000
   KEEP2 = 1000
